@@ -20,6 +20,14 @@ theorem method_table_matches_names :
     ∀ e ∈ Generated.bufferProtoSet, (descOfName e.1).isSome = true →
       (lookupFacts e.2).map descOfFacts = descOfName e.1 := by decide +kernel
 
+/-- **Return value of a write.** Every write method returns the offset plus *its own width*: the constant the
+Go source adds to the offset (regenerated) is the method's byte count, and the variable-width methods add the
+`byteLength` they were given.  (A method that stored two bytes and returned offset+1 would keep every other
+theorem true: the model takes the constant from the source.) -/
+theorem write_returns_offset_plus_width :
+    ∀ m ∈ Generated.bufferMethodFacts, m.dir = "write" →
+      (m.numBytes ≠ 0 → m.retAdd = toString m.numBytes) ∧ (m.numBytes = 0 → m.retAdd = "byteLength") := by decide +kernel
+
 /-- the `Uint` spelling of every method is registered and bound to the same implementation as `UInt` -/
 theorem aliases_bound_to_twin :
     ∀ e ∈ Generated.bufferProtoSet, ∀ e' ∈ Generated.bufferProtoSet,
